@@ -34,6 +34,15 @@ def bases(tier, seed):
                         else:
                             p["type"] = ty
                     out.append((d, dict(t, base="star-typed-axi-" + "-".join(str(x) for x in labels))))
+            if not nw:
+                # wide address widths: a range one byte beyond 2^addr_width must be rejected exactly, not up to the
+                # precision of a floating-point logarithm
+                for aw in ((64,) if tier == "quick" else (49, 52, 56, 64)):
+                    d, t = families.star(rng, 3, algo, nw, roles=["ms", "s", "m"], shapes=[None, 2, None], nranges=[1, 1, 1],
+                                         router_first=False)
+                    for p in d["protocols"]:
+                        p["addr_width"] = aw
+                    out.append((d, dict(t, base=f"star-aw{aw}")))
         d, t = families.mesh(rng, 2, 2, algo, nw, sides=("W",), force_dir=True)
         out.append((d, dict(t, base="mesh")))
         d, t = families.mesh(rng, 2, 2, algo, nw, partial=[(0, 0), (1, 1)], force_dir=True, cluster_role="ms")
